@@ -105,6 +105,11 @@ CONFIGS = {
     "fields": dict(picture_coding_mode="pictures_are_fields", frame_height="8", clean_height="8"),
     "asym_custom_matrix": dict(dwt_depth="1", dwt_depth_ho="1", wavelet_index_ho="le_gall_5_3", quantization_matrix="0 1 2 3 4"),
     "asym_custom_matrix_ho2": dict(dwt_depth="1", dwt_depth_ho="1", wavelet_index_ho="haar_no_shift", quantization_matrix="0 1 2 3 4"),
+    # 32x16: large enough for the signal-range (bit width) test patterns to exist
+    "ho_pair_a": dict(frame_width="32", frame_height="16", clean_width="32", clean_height="16", wavelet_index="haar_no_shift",
+                      wavelet_index_ho="haar_no_shift", quantization_matrix="4 2 2 0", picture_bytes="256"),
+    "ho_pair_b": dict(frame_width="32", frame_height="16", clean_width="32", clean_height="16", wavelet_index="haar_no_shift",
+                      wavelet_index_ho="le_gall_5_3", quantization_matrix="4 2 2 0", picture_bytes="256"),
     "ten_bit_422": dict(color_diff_format_index="color_4_2_2", luma_excursion="1023", color_diff_excursion="1023", color_diff_offset="512"),
     "hq_fragments": dict(fragment_slice_count="1"),
     "ld_plain": dict(profile="low_delay", picture_bytes="32"),
@@ -129,7 +134,7 @@ CONFIG_SETS = {
     "similar_names": [("cam A: 8x4 10 bit", "minimal_hq"), ("cam_A_8x4_10_bit", "ld_plain")],
     # two columns that differ in ONE attribute only (the horizontal-only wavelet; same custom matrix): whatever the
     # serial run memoises per configuration under too coarse a key differs from the fresh worker processes
-    "ho_pair": [("ho_a", "asym_custom_matrix"), ("ho_b", "asym_custom_matrix_ho2")],
+    "ho_pair": [("ho_a", "ho_pair_a"), ("ho_b", "ho_pair_b")],
 }
 
 
@@ -148,7 +153,7 @@ def plan(tier, seed):
         for g in range(3):
             shards.append({"shard": 1000 + g, "config": "set:similar_names", "group": g, "schedules": 5, "hashseed_runs": 1 if g == 0 else 0})
             shards.append({"shard": 1100 + g, "config": "set:ho_pair", "group": g, "schedules": 5, "hashseed_runs": 1 if g == 0 else 0})
-        for cfg in sorted(CONFIGS):
+        for cfg in sorted(c for c in CONFIGS if not c.startswith("ho_pair_")):
             for g in range(6):
                 shards.append({"shard": i, "config": cfg, "group": g, "schedules": 5, "hashseed_runs": 1 if g < 3 else 0})
                 i += 1
